@@ -4,4 +4,5 @@ package consumer
 
 var verifHarnesses = map[string]func(){
 	"VerifC17ConsumerCallbacks": VerifC17ConsumerCallbacks,
+	"VerifC01ConsumerEndBlock":  VerifC01ConsumerEndBlock,
 }
